@@ -245,6 +245,17 @@ fn run_typed<T: Cm>(ctx: &mut Ctx, case: &Json, tails: &mut HashMap<u64, Tail>) 
     check_cm(ctx, &sk, &model, domain.min(16), salt, "fresh", &mut scratch_tail);
     let every = (n_ops / 10).max(1);
     let big = T::MAXV > (1i128 << 40);
+    if rng.chance(0.3) {
+        // start in the upper half of the counter type's range (one heavy item), so that every later
+        // operation, including decay and the round trip, is exercised near the type's maximum
+        let w = T::MAXV / 2 + 1 + (rng.next_u64() as i128 % (T::MAXV / 4).max(1));
+        let i = rng.below(domain);
+        let (item, bytes) = item_bytes(i, salt);
+        sk.update_with_weight(item, T::from_i(w));
+        model.add(i, &bytes, w);
+        ctx.cover("history_in_upper_half_of_range");
+        check_cm(ctx, &sk, &model, domain, salt, "after the heavy first update", &mut scratch_tail);
+    }
     for op in 0..n_ops {
         let remaining = T::MAXV - model.total;
         let r = rng.below(100);
